@@ -163,10 +163,12 @@ Qed.
    (a) Coq-Interval on the real rational function with the GENERATED coefficients (|h/(p 2^x) - 1| <= 10^-20 on [0,1]),
    (b) fixed-point error analysis of the 6 MulMut / 12 Mul / 12 AddMut / QuoMut of the model (<= 33 ulps of 10^-36),
    (c) the exact left shift by the integer part. *)
-Theorem C13_exp2_relative_error : forall e r, exp2 e = Ok r ->
-  (0 <= e <= 512 * P36)%Z /\
-  (Rabs (bdR r - Rpower 2 (bdR e)) <= 1 / 10 ^ 19 * Rpower 2 (bdR e))%R.
-Proof. exact exp2_bound. Qed.
+Theorem C13_exp2_relative_error : 
+  (forall e r, exp2 e = Ok r ->
+     (0 <= e <= 512 * P36)%Z /\ (Rabs (bdR r - Rpower 2 (bdR e)) <= 1 / 10 ^ 19 * Rpower 2 (bdR e))%R) /\
+  (* ... and inside the documented domain Exp2 always returns: no bit-length assertion fires, the denominator is positive *)
+  (forall e, 0 <= e <= 512 * P36 -> exists r, exp2 e = Ok r).
+Proof. split; [exact exp2_bound|exact exp2_total]. Qed.
 Print Assumptions C13_exp2_relative_error.
 
 Theorem C13_exp2_negative_fails : forall e, e < 0 -> exp2 e = Err ENegExponent.
@@ -175,11 +177,6 @@ Print Assumptions C13_exp2_negative_fails.
 Theorem C13_exp2_too_large_fails : forall e, 512 * P36 < e -> exp2 e = Err EExpTooLarge.
 Proof. exact exp2_too_large. Qed.
 Print Assumptions C13_exp2_too_large_fails.
-
-(* inside the documented domain Exp2 always returns: no bit-length assertion fires, the denominator is positive *)
-Theorem C13_exp2_total : forall e, 0 <= e <= 512 * P36 -> exists r, exp2 e = Ok r.
-Proof. exact exp2_total. Qed.
-Print Assumptions C13_exp2_total.
 
 Example C13_exp2_nonvacuous :
   exp2 (15 * 10 ^ 35) = Ok 2828427124746190097603377448419396158 /\          (* 2^1.5 = 2.8284271247461900976033774484193961571... *)
@@ -193,33 +190,28 @@ Proof. vm_compute. repeat split. Qed.
    exact left-normalisation, <= 2 ulps per right-normalisation shift (<= 1144 shifts), and per squaring round one ulp for
    the truncated bit value plus the correctly rounded square; 2^-maxLog2Iterations for the unread tail. *)
 Theorem C13_log2_error : forall x r, log_base2 x = Ok r -> (bitlen x <= 1144)%Z ->
-  (0 < x)%Z /\ (Rabs (bdR r - log2R (bdR x)) <= 3300 * u36)%R.
-Proof. exact log_base2_err. Qed.
+  (0 < x)%Z /\ (Rabs (bdR r - log2R (bdR x)) <= 3300 * u36)%R /\ (Rabs (bdR r - log2R (bdR x)) <= 1 / 10 ^ 32)%R.
+Proof.
+  intros x r H Hb. destruct (log_base2_err x r H Hb) as [A B]. split; [exact A|split; [exact B|exact (log_base2_err_documented x r H Hb)]].
+Qed.
 Print Assumptions C13_log2_error.
-Theorem C13_log2_error_documented : forall x r, log_base2 x = Ok r -> (bitlen x <= 1144)%Z ->
-  (Rabs (bdR r - log2R (bdR x)) <= 1 / 10 ^ 32)%R.
-Proof. exact log_base2_err_documented. Qed.
-Print Assumptions C13_log2_error_documented.
 
 (* derived logarithms = Quo by log2(base): the base-2 error scaled by the base change, with the divisor's own error
    (1 ulp for the stored constants - proved correctly rounded by Interval -, 3300 ulps for a computed one), plus one ulp
    for the final rounding *)
-Theorem C13_ln_error : forall x r, ln_bigdec x = Ok r -> (bitlen x <= 1144)%Z ->
-  (0 < x)%Z /\ (Rabs (bdR r - ln (bdR x)) <= (3300 * u36 + Rabs (ln (bdR x)) * u36) / (1 / ln 2 - u36) + u36)%R.
-Proof. exact ln_bigdec_err. Qed.
-Print Assumptions C13_ln_error.
-Theorem C13_ticklog_error : forall x r, tick_log x = Ok r -> (bitlen x <= 1144)%Z ->
-  let C0 := log2R (10001 / 10000) in
-  (0 < x)%Z /\ (Rabs (bdR r - log2R (bdR x) / C0) <= (3300 * u36 + Rabs (log2R (bdR x) / C0) * u36) / (C0 - u36) + u36)%R.
-Proof. exact tick_log_err. Qed.
-Print Assumptions C13_ticklog_error.
-Theorem C13_custom_base_log_error : forall x base r, custom_base_log x base = Ok r -> (bitlen x <= 1144)%Z -> (bitlen base <= 1144)%Z ->
-  let C0 := log2R (bdR base) in
-  (0 < x)%Z /\ (0 < base)%Z /\ base <> P36 /\
-  ((3300 * u36 < Rabs C0)%R ->
-   (Rabs (bdR r - log2R (bdR x) / C0) <= (3300 * u36 + Rabs (log2R (bdR x) / C0) * (3300 * u36)) / (Rabs C0 - 3300 * u36) + u36)%R).
-Proof. exact custom_base_log_err. Qed.
-Print Assumptions C13_custom_base_log_error.
+Theorem C13_derived_logs_error :
+  (forall x r, ln_bigdec x = Ok r -> (bitlen x <= 1144)%Z ->
+     (0 < x)%Z /\ (Rabs (bdR r - ln (bdR x)) <= (3300 * u36 + Rabs (ln (bdR x)) * u36) / (1 / ln 2 - u36) + u36)%R) /\
+  (forall x r, tick_log x = Ok r -> (bitlen x <= 1144)%Z ->
+     let C0 := log2R (10001 / 10000) in
+     (0 < x)%Z /\ (Rabs (bdR r - log2R (bdR x) / C0) <= (3300 * u36 + Rabs (log2R (bdR x) / C0) * u36) / (C0 - u36) + u36)%R) /\
+  (forall x base r, custom_base_log x base = Ok r -> (bitlen x <= 1144)%Z -> (bitlen base <= 1144)%Z ->
+     let C0 := log2R (bdR base) in
+     (0 < x)%Z /\ (0 < base)%Z /\ base <> P36 /\
+     ((3300 * u36 < Rabs C0)%R ->
+      (Rabs (bdR r - log2R (bdR x) / C0) <= (3300 * u36 + Rabs (log2R (bdR x) / C0) * (3300 * u36)) / (Rabs C0 - 3300 * u36) + u36)%R)).
+Proof. split; [exact ln_bigdec_err|split; [exact tick_log_err|exact custom_base_log_err]]. Qed.
+Print Assumptions C13_derived_logs_error.
 
 Theorem C13_log2_domain_fails : forall x, x <= 0 -> log_base2 x = Err ELogDomain /\ ln_bigdec x = Err ELogDomain /\ tick_log x = Err ELogDomain.
 Proof. intros x H. split; [apply log_base2_domain|split; [apply ln_bigdec_domain|apply tick_log_domain]]; assumption. Qed.
@@ -238,8 +230,7 @@ Print Assumptions C13_log2_total.
 
 Example C13_log2_nonvacuous :
   log_base2 (3 * P36) = Ok 1584962500721156181453738943947816490 /\       (* log2 3 = 1.58496250072115618145373894394781650875... *)
-  bitlen (3 * P36) <= 1144 /\ log_base2 P36 = Ok 0 /\ log_base2 1 = Ok (-119589411415945044523331499461618046348) /\
-  log_base2 0 = Err ELogDomain /\ custom_base_log (8 * P36) (2 * P36) = Ok (3 * P36) /\ custom_base_log 5 P36 = Err ELogBase.
+  bitlen (3 * P36) <= 1144 /\ log_base2 0 = Err ELogDomain /\ custom_base_log 5 P36 = Err ELogBase.
 Proof. vm_compute. repeat split; discriminate. Qed.
 
 (* ---------- Pow / PowApprox ---------- *)
@@ -248,15 +239,12 @@ Proof. vm_compute. repeat split; discriminate. Qed.
    is FALSE of the faithful model (and of the implementation: finding F4): the series is stopped when the last added term
    is below 10^-8, which bounds the remainder only for base >= 0.5 *)
 Definition C13_pow_full : Prop := C13_pow_full_statement.
-Theorem C13_pow_full_refuted : ~ C13_pow_full.
-Proof. exact pow_full_refuted. Qed.
-Print Assumptions C13_pow_full_refuted.
-
-(* "outside the domain the functions fail loudly instead of returning a wrong number" is false for exponents <= -1
+(* and "outside the domain the functions fail loudly instead of returning a wrong number" is false for exponents <= -1
    (finding F9): Pow(0.5, -1) = 0 *)
-Theorem C13_pow_negative_exponent_refuted : ~ C13_pow_negative_exponent_statement.
-Proof. exact pow_negative_exponent_refuted. Qed.
-Print Assumptions C13_pow_negative_exponent_refuted.
+Definition C13_pow_fails_loudly : Prop := C13_pow_negative_exponent_statement.
+Theorem C13_pow_full_refuted : ~ C13_pow_full /\ ~ C13_pow_fails_loudly.
+Proof. split; [exact pow_full_refuted|exact pow_negative_exponent_refuted]. Qed.
+Print Assumptions C13_pow_full_refuted.
 
 (* what IS proved about Pow (partial: no error bound for 0.5 <= base < 2 is proved in Coq - it would need the binomial
    series identity and an accumulation bound for up to powIterationLimit rounded rounds; that range is covered by the
@@ -284,7 +272,7 @@ Print Assumptions C13_pow_integer_exponent.
 
 Example C13_pow_nonvacuous :
   pow (15 * 10 ^ 17) (15 * 10 ^ 17) = Ok 1837117307087383574 /\        (* 1.5^1.5 = 1.8371173070873836 *)
-  pow (10 ^ 15) (10 ^ 17) = Ok 501195897725914681 /\                    (* F4 witness *)
+  pow (3 * 10 ^ 17) (3 * 10 ^ 17) = Ok 696845320001282408 /\             (* F4: 0.3^0.3 = 0.696845301935949..., off by 1.8e-8 *)
   pow (5 * 10 ^ 17) (- P18) = Ok 0 /\                                   (* F9 witness *)
   pow (2 * P18) P18 = Err EPowBaseGE2 /\ pow 0 P18 = Err EPowBaseLE0 /\
   pow (15 * 10 ^ 17) (3 * P18) = dc_power (15 * 10 ^ 17) 3.
